@@ -112,7 +112,7 @@ def annotate(src):
     with warnings.catch_warnings(record=True) as caught:
         warnings.simplefilter("always")
         try:
-            root = pt.with_timeout(20 + len(src) / 5000.0, patchedast.get_patched_ast, src, True)
+            root = pt.with_timeout(5 + len(src) / 20000.0, patchedast.get_patched_ast, src, True)
             exc = None
         except pt.Hang as e:
             root, exc = None, e
